@@ -80,6 +80,7 @@ func c11List(tier string) []c11Case {
 			i++
 			out = append(out, c11Case{Mode: "cancel-while-send-blocked-with-unread", Kind: "bidi", M: m, GMP: []int{1, 4, 16}[i%3]})
 			out = append(out, c11Case{Mode: "undecodable-response-then-more", Kind: []string{"bidi", "server"}[i%2], M: m, GMP: []int{1, 4, 16}[(i+1)%3]})
+			out = append(out, c11Case{Mode: "unencodable-send-then-more", Kind: "bidi", M: m, GMP: []int{1, 4, 16}[(i+2)%3]})
 		}
 	}
 	for rp := 0; rp < reps; rp++ {
@@ -373,6 +374,12 @@ func c11Scripted(tier string, seed int64, idx int, c c11Case, res *core.Result) 
 			}
 			return
 		}
+		if c.Mode == "unencodable-send-then-more" {
+			// a send the codec cannot encode fails; the caller, told that an error aborts the stream,
+			// walks away without receiving or cancelling, while the peer keeps sending
+			sendErr = s.SendMsg(struct{ X int }{1})
+			return
+		}
 		// receives; the first response cannot be decoded: the caller treats the stream as aborted
 		// (as the API contract says) and simply stops - it does not cancel
 		_, recvErr = s.Recv()
@@ -456,7 +463,7 @@ func c11Run(tier string, seed int64, idx int) *core.Result {
 		c11WSCancel(tier, seed, idx, res)
 		return res
 	}
-	if c.Mode == "cancel-while-send-blocked-with-unread" || c.Mode == "undecodable-response-then-more" {
+	if c.Mode == "cancel-while-send-blocked-with-unread" || c.Mode == "undecodable-response-then-more" || c.Mode == "unencodable-send-then-more" {
 		res := &core.Result{Verdict: core.Held, Sample: c, Sig: fmt.Sprintf("%+v/%d", c, idx), NonTrivial: true}
 		c11Scripted(tier, seed, idx, c, res)
 		return res
@@ -702,7 +709,7 @@ func init() {
 	core.Register(&core.Prop{
 		ID:             "C11",
 		Level:          "exploration",
-		Rule:           "cases = {handler returns after k of n client messages, all 0<=k<n<=8 (server-stream n<=3)} + {caller cancels with m in 0..8 responses unread} x stream kind x other RPCs in flight {quick 0,2; thorough 0..4} x hook plan {none, rendezvous parking the server's stream unregistration until nothing else moves; thorough adds jitter and parking the client stream's teardown}; plus scripted-server families (the caller is cancelled - or its deadline passes - while its send is blocked by transport back-pressure and m in 3..6 responses are unread; the first response cannot be decoded, the caller stops receiving without cancelling, and m-1 more responses follow); a family in which the transport reports the write of a stream's opening envelope as failed although it was delivered, so that the handler sends 2..5 messages to an id the caller has given up; a family with real timers in which the handler stops consuming and waits for its context while the caller (50 ms deadline, with and without request metadata) keeps sending, judged one second after the deadline; and a family over the shipped websocket transport on loopback sockets in which a caller gives up (cancel / deadline / stream send) while its 64 KiB frame is half-way onto the socket, with 2 calls in flight (wall-clock bounds there are inconclusive, only failed calls are violations); every case ends with a no-deadline probe and a manual-deadline probe. All cases are distinct parameter tuples and all are non-trivial (each abandons a stream).",
+		Rule:           "cases = {handler returns after k of n client messages, all 0<=k<n<=8 (server-stream n<=3)} + {caller cancels with m in 0..8 responses unread} x stream kind x other RPCs in flight {quick 0,2; thorough 0..4} x hook plan {none, rendezvous parking the server's stream unregistration until nothing else moves; thorough adds jitter and parking the client stream's teardown}; plus scripted-server families (the caller is cancelled - or its deadline passes - while its send is blocked by transport back-pressure and m in 3..6 responses are unread; the first response cannot be decoded, the caller stops receiving without cancelling, and m-1 more responses follow; a send of the caller cannot be encoded, it walks away, and m responses follow); a family in which the transport reports the write of a stream's opening envelope as failed although it was delivered, so that the handler sends 2..5 messages to an id the caller has given up; a family with real timers in which the handler stops consuming and waits for its context while the caller (50 ms deadline, with and without request metadata) keeps sending, judged one second after the deadline; and a family over the shipped websocket transport on loopback sockets in which a caller gives up (cancel / deadline / stream send) while its 64 KiB frame is half-way onto the socket, with 2 calls in flight (wall-clock bounds there are inconclusive, only failed calls are violations); every case ends with a no-deadline probe and a manual-deadline probe. All cases are distinct parameter tuples and all are non-trivial (each abandons a stream).",
 		Plan:           func(tier string, seed int64) int { return len(c11List(tier)) },
 		ThoroughRounds: 4,
 		Run:            c11Run,
